@@ -4,7 +4,7 @@ from .. import x as X
 # includes pairs where one name is another one plus the filename separator (x / x_y, rig_b vs task rig, Al / Al_1)
 # ... and names that are words of another level's vocabulary, fixed folder names of the layout, digits only, upper case
 NAME_POOL = ["bob", "bob-x", "bob.x", "bob+x", "alice", "Al", "Al_1", "x", "x_y", "dagger", "o0", "Zed", "a", "rig_b", "rig",
-             "char", "WORK", "hamlet", "v001", "007", "BOB", "PROD", "OUTPUT", "w"]
+             "char", "WORK", "hamlet", "v001", "007", "BOB", "PROD", "OUTPUT", "w", "zoé", "Ünal_ß"]
 PLAIN_NAMES = ["bob", "alice", "dagger", "Zed", "o0", "a"]
 VERSION_NUMS = [0, 1, 2, 3, 9, 10, 11, 99, 100, 101, 127, 128, 129, 255, 256, 511, 512, 998, 999]
 CROWD_NAMES = ["n%03d" % i for i in range(110)] + ["a_very_long_asset_name_of_more_than_forty_characters_x"]
